@@ -155,6 +155,21 @@ harness! {
 }
 
 harness! {
+    fn q13_total_records_redeclare_mustpanic() {
+        // a channel's declared record count cannot be silently replaced by another count (the channel
+        // would close at the wrong record): the attempt must be refused loudly
+        let (a, b): (usize, usize) = (kani::any(), kani::any());
+        kani::assume(a >= 1 && b >= 1);
+        let old = TotalRecords::Specified(NonZeroUsize::new(a).unwrap());
+        let new: TotalRecords = if kani::any() { TotalRecords::Specified(NonZeroUsize::new(b).unwrap()) } else { TotalRecords::Unspecified };
+        kani::cover!(true);
+        let r = old.overwrite(new);
+        std::mem::forget(r);
+        assert!(false, "MUST NOT RETURN: a declared record count was replaced");
+    }
+}
+
+harness! {
     fn q13_active_work_from_query_size() {
         // the active window derived from the query size: a power of two in [2, default], at least the
         // input size when that is below the default, and never a panic for any admissible size
